@@ -87,7 +87,8 @@ fn run_once(s: &Subject, archive: &[u8], sched: &Schedule) -> Result<Run, infra:
 fn explore_subject(s: &Subject, pairs: bool, rep: &mut Report) {
     infra::watch_case(json!({"program": s.p.short(), "cfg": s.cfg.json(), "side": format!("{:?}", s.side)}));
     let Ok(Ok((archive, _))) = guard(|| prog::build(&s.p, &s.cfg)) else {
-        rep.count("archive_not_built(see C01)", 1);
+        rep.evaluations += 1;
+        rep.violate(Violation { sig: json!({"kind": "subject_archive_cannot_be_built", "layers": s.cfg.layers.tag()}), detail: format!("{} / {}: a valid writer program gives no archive in memory; an explorer that drops such inputs would pass vacuously", s.p.short(), s.cfg.layers.tag()), replay: json!({"program": s.p.json(), "cfg": s.cfg.json()}), weight: 0 });
         return;
     };
     let lt = s.cfg.layers.tag();
